@@ -41,7 +41,39 @@ def pool_contents(rng):
     bad2['Reservoir Depth'] = 0.5               # cold resource: fails inside Calculate
     pool['badcalc'] = geo.params_to_text(bad2)
     pool['badenum'] = geo.params_to_text({**geo.base_params(2, 1, 1), 'Reservoir Model': '1.0'})
+    # --- other reservoir models (module-level memos / numpy state only show with particular models) -----------------------------------
+    frac = {'Reservoir Model': 1, 'Fracture Shape': 3, 'Fracture Height': 900, 'Reservoir Volume Option': 3, 'Reservoir Volume': 1e9, 'Number of Fractures': 20}
+    m1 = {**geo.base_params(2, 1, 1, L=10, n=2), **frac}
+    m1.pop('Drawdown Parameter', None)
+    pool['mpf-a'] = geo.params_to_text(m1)
+    pool['mpf-b'] = geo.params_to_text({**m1, 'Reservoir Volume': 5e7})            # same time grid, other fracture separation
+    pool['lhs'] = geo.params_to_text({**m1, 'Reservoir Model': 2, 'Reservoir Porosity': 0.04, 'Rock Particle Diameter': 0.2})
+    pool['sf'] = geo.params_to_text({**geo.base_params(1, 2, 9, L=10, n=2), 'Reservoir Model': 3, 'Drawdown Parameter': 0.00002})
+    cyl = {**geo.base_params(2, 1, 1, L=10, n=2), 'Reservoir Model': 0, 'Cylindrical Reservoir Input Depth': 3, 'Cylindrical Reservoir Output Depth': 3, 'Cylindrical Reservoir Length': 4,
+           'Cylindrical Reservoir Radius of Effect': 0.3}
+    cyl.pop('Drawdown Parameter', None)
+    pool['cyl'] = geo.params_to_text(cyl)
+    # --- requests that rely on defaults (no gradient, no thermal properties, ...), alone and after runs that set them ------------------
+    sparse = {k: v for k, v in geo.base_params(2, 1, 1, L=10, n=2).items() if k not in ('Gradient 1', 'Reservoir Heat Capacity', 'Reservoir Density', 'Reservoir Thermal Conductivity',
+                                                                                        'Surface Temperature', 'Injection Temperature', 'Utilization Factor', 'Water Loss Fraction')}
+    pool['sparse'] = geo.params_to_text(sparse)
+    pool['sparse-heat'] = geo.params_to_text({k: v for k, v in geo.base_params(1, 2, 9, L=10, n=2).items() if k not in ('Gradient 1', 'Number of Segments', 'Maximum Temperature', 'Ambient Temperature')})
+    seg = {**geo.base_params(2, 1, 1, L=10, n=2), 'Number of Segments': 2, 'Gradient 1': 60, 'Thickness 1': 1.5}     # Gradient 2 left at its default
+    pool['seg-default'] = geo.params_to_text(seg)
+    pool['seg-set'] = geo.params_to_text({**seg, 'Gradient 2': 80, 'Thickness 2': 2.5})
+    # --- contents that differ only where a careless cache key would not look (list tails, duplicate order, a comment, one digit) -----------
+    seglist = {k: v for k, v in seg.items() if k not in ('Gradient 1', 'Thickness 1')}
+    pool['list-a'] = geo.params_to_text(seglist) + 'Gradients, 50, 40\nThicknesses, 2, 1\n'
+    pool['list-b'] = geo.params_to_text(seglist) + 'Gradients, 50, 70\nThicknesses, 2, 1\n'
+    b0 = geo.params_to_text(geo.base_params(2, 1, 1, L=10, n=2))
+    pool['dup-a'] = b0 + 'Gradient 1, 45\nGradient 1, 65\n'
+    pool['dup-b'] = b0 + 'Gradient 1, 65\nGradient 1, 45\n'
+    pool['digit-a'] = b0 + 'Production Flow Rate per Well, 61\n'
+    pool['digit-b'] = b0 + 'Production Flow Rate per Well, 61.5 , -- comment\n'
     return pool
+
+
+NEAR = [('mpf-a', 'mpf-b'), ('list-a', 'list-b'), ('dup-a', 'dup-b'), ('digit-a', 'digit-b'), ('seg-set', 'seg-default'), ('ok0', 'sparse'), ('ok1', 'sparse-heat'), ('badcalc', 'cyl')]
 
 
 def reference(chk, pool):
@@ -85,7 +117,15 @@ def gen_history(rng, pool, scratch, k):
     dirs = [str(d), str(d / 'sub'), '/', str(Path(scratch))]
     for _ in range(rng.randint(8, 30)):
         z = rng.random()
-        if z < 0.62:
+        if z < 0.25:
+            # a near pair through one path: request X, rewrite the file with its neighbour Y, request again (stale caches, memo keys, leaked state)
+            a, b = rng.choice(NEAR)
+            if rng.random() < 0.5:
+                a, b = b, a
+            p = rng.choice(paths)
+            c1 = caching if rng.random() < 0.8 else 1 - caching
+            ops += [['w', p, a], ['q', p, c1, 'reused'], ['w', p, b], ['q', p, c1, 'reused']]
+        elif z < 0.62:
             p = rng.choice(paths)
             ops.append(['q', p, caching if rng.random() < 0.8 else 1 - caching, rng.choice(['reused', 'reused', 'fresh'])])
         elif z < 0.85:
